@@ -153,8 +153,19 @@ class Runner:
         with open(self.stdin_path, "wb") as f:
             f.write(stdin)
         o = Obs()
+        trig = None
+        if qq.get("trig") and qq["mode"] == "real":
+            # the reader of lock/trigger is there when the real queue program opens the FIFO and gone (or its pipe full) when it writes the
+            # wake-up byte AFTER the commit point: "if it fails, bummer" - the message is queued and must be acknowledged as such
+            trig = os.open(os.path.join(self.h.queue, "lock", "trigger"), os.O_RDONLY | os.O_NONBLOCK)
+            if not fault:
+                e["VSHIM_FAULT"] = "qmail-queue:pwrite:0:%d" % qq["trig"]
         o.t0 = int(time.time())
-        o.rc, o.out, o.err = sandbox.run_proc([self.tree.path(DAEMON_BIN[daemon])], e, stdin_file=self.stdin_path, timeout=timeout)
+        try:
+            o.rc, o.out, o.err = sandbox.run_proc([self.tree.path(DAEMON_BIN[daemon])], e, stdin_file=self.stdin_path, timeout=timeout)
+        finally:
+            if trig is not None:
+                os.close(trig)
         o.t1 = int(time.time())
         o.commits, o.invocations, o.recs = self._collect(qq)
         return o
